@@ -1,0 +1,130 @@
+// Verification hooks. Compiled only with the off-by-default `verif` cargo feature.
+
+//! Runtime-verification access (feature `verif`): wire types, framing functions, the two
+//! authentication state machines and the session election function.
+
+#![allow(missing_docs, missing_debug_implementations)]
+
+/// Wire types of the authentication protocol
+pub mod auth {
+    pub use crate::protocol::auth::*;
+}
+/// Wire types of the control protocol
+pub mod control {
+    pub use crate::protocol::control::*;
+}
+/// The frame envelope
+pub mod meta {
+    pub use crate::protocol::meta::*;
+}
+/// Wire types of the inter-actor protocol
+pub mod node {
+    pub use crate::protocol::node::*;
+}
+pub use crate::protocol::meta::NetworkMessage;
+
+/// The challenge digest
+pub fn challenge_digest(secret: &str, challenge: u32) -> [u8; 32] {
+    crate::hash::challenge_digest(secret, challenge)
+}
+
+use crate::node::auth as fsm;
+
+/// Encode one length-prefixed frame
+pub fn encode_network_message(msg: &NetworkMessage, buf: &mut Vec<u8>) {
+    crate::net::verif_access::encode(msg, buf)
+}
+
+/// Frame length admission check
+pub fn checked_frame_length(length: u64, max: u64) -> std::io::Result<usize> {
+    crate::net::verif_access::checked_frame_length(length, max)
+}
+
+/// Frame reader over an arbitrary byte stream
+pub struct FrameReader(crate::net::verif_access::Reader);
+impl FrameReader {
+    pub fn new(reader: crate::BoxRead) -> Self {
+        Self(crate::net::verif_access::Reader::new(reader))
+    }
+    pub async fn read(&mut self, max_frame_size: u64) -> std::io::Result<NetworkMessage> {
+        self.0.read(max_frame_size).await
+    }
+}
+
+/// The server-side authentication state machine
+pub struct ServerFsm(fsm::ServerAuthenticationProcess);
+impl ServerFsm {
+    pub fn init() -> Self {
+        Self(fsm::ServerAuthenticationProcess::init())
+    }
+    pub fn waiting_on_client_status() -> Self {
+        Self(fsm::ServerAuthenticationProcess::WaitingOnClientStatus)
+    }
+    pub fn next(&self, msg: auth::AuthenticationMessage, cookie: &str) -> Self {
+        Self(self.0.next(msg, cookie))
+    }
+    pub fn start_challenge(&self, cookie: &str) -> Self {
+        Self(self.0.start_challenge(cookie))
+    }
+    pub fn is_ok(&self) -> bool {
+        matches!(self.0, fsm::ServerAuthenticationProcess::Ok(_))
+    }
+    pub fn is_close(&self) -> bool {
+        matches!(self.0, fsm::ServerAuthenticationProcess::Close)
+    }
+    /// the challenge issued, if the machine is waiting for its reply
+    pub fn challenge(&self) -> Option<u32> {
+        match &self.0 {
+            fsm::ServerAuthenticationProcess::WaitingOnClientChallengeReply(c, _) => Some(*c),
+            _ => None,
+        }
+    }
+    pub fn name(&self) -> &'static str {
+        match &self.0 {
+            fsm::ServerAuthenticationProcess::WaitingOnPeerName => "WaitingOnPeerName",
+            fsm::ServerAuthenticationProcess::HavePeerName(_) => "HavePeerName",
+            fsm::ServerAuthenticationProcess::WaitingOnClientStatus => "WaitingOnClientStatus",
+            fsm::ServerAuthenticationProcess::WaitingOnClientChallengeReply(..) => "WaitingOnClientChallengeReply",
+            fsm::ServerAuthenticationProcess::Ok(_) => "Ok",
+            fsm::ServerAuthenticationProcess::Close => "Close",
+        }
+    }
+}
+
+/// The client-side authentication state machine
+pub struct ClientFsm(fsm::ClientAuthenticationProcess);
+impl ClientFsm {
+    pub fn init() -> Self {
+        Self(fsm::ClientAuthenticationProcess::init())
+    }
+    pub fn next(&self, msg: auth::AuthenticationMessage, cookie: &str) -> Self {
+        Self(self.0.next(msg, cookie))
+    }
+    pub fn is_ok(&self) -> bool {
+        matches!(self.0, fsm::ClientAuthenticationProcess::Ok)
+    }
+    pub fn is_close(&self) -> bool {
+        matches!(self.0, fsm::ClientAuthenticationProcess::Close)
+    }
+    /// the challenge this client issued to the server, if any
+    pub fn challenge(&self) -> Option<u32> {
+        match &self.0 {
+            fsm::ClientAuthenticationProcess::WaitingForServerChallengeAck(_, _, c, _) => Some(*c),
+            _ => None,
+        }
+    }
+    pub fn name(&self) -> &'static str {
+        match &self.0 {
+            fsm::ClientAuthenticationProcess::WaitingForServerStatus => "WaitingForServerStatus",
+            fsm::ClientAuthenticationProcess::WaitingForServerChallenge(_) => "WaitingForServerChallenge",
+            fsm::ClientAuthenticationProcess::WaitingForServerChallengeAck(..) => "WaitingForServerChallengeAck",
+            fsm::ClientAuthenticationProcess::Ok => "Ok",
+            fsm::ClientAuthenticationProcess::Close => "Close",
+        }
+    }
+}
+
+/// The session election function: candidates are (actor id, is_server, connection nonce; 0 = legacy)
+pub fn elect_sessions(this_node_name: &str, peer_name: &str, candidates: &[(u64, bool, u64)]) -> Vec<u64> {
+    crate::node::verif_elect(this_node_name, peer_name, candidates)
+}
